@@ -55,6 +55,7 @@ func init() {
 			{Name: "C01.R2", Run: func(c *Ctx) { ruleRelocationComplete(c, "C01.R2") }},
 			{Name: "C01.R4", Run: func(c *Ctx) { ruleRelocationScope(c, "C01.R4") }},
 			{Name: "C01.R5", Run: func(c *Ctx) { ruleLoopProtocol(c, "C01.R5") }},
+			{Name: "C01.R6", Run: func(c *Ctx) { ruleBacktrackResumesTop(c, "C01.R6"); ruleSnapshotIsolation(c, "C01.R6b") }},
 			{Name: "C01.R3", Run: func(c *Ctx) { ruleScanDiscipline(c, "C01.R3"); ruleAttemptFresh(c, "C01.R3b") }},
 		},
 	})
@@ -96,6 +97,8 @@ func init() {
 			}},
 			{Name: "C05.R2", Run: func(c *Ctx) { ruleReplacementAccumulates(c, "C05.R2") }},
 			{Name: "C05.R3", Run: func(c *Ctx) { rulePerMatchReplacer(c, "C05.R3") }},
+			{Name: "C05.R3b", Run: func(c *Ctx) { ruleReplacerOwnsItsTables(c, "C05.R3b") }},
+			{Name: "C05.R7", Run: func(c *Ctx) { ruleProcessEnvFresh(c, "C05.R7") }},
 			{Name: "C05.R5", Run: func(c *Ctx) { rulePlumbing(c, "C05.R5") }},
 			{Name: "C05.R6", Run: func(c *Ctx) { ruleItemKinds(c, "C05.R6") }},
 		},
@@ -133,32 +136,35 @@ func init() {
 			{Name: "C08.R4", Run: func(c *Ctx) { ruleIndexGuards(c, "C08.R4") }},
 			{Name: "C08.R6", Run: func(c *Ctx) { ruleErrorsPrintable(c, "C08.R6") }},
 			{Name: "C08.R7", Run: func(c *Ctx) { ruleTypeSwitchTotal(c, "C08.R7") }},
+			{Name: "C08.R8", Run: func(c *Ctx) { ruleCompileNeverNilNil(c, "C08.R8") }},
 		},
 	})
 	register(&Property{
 		ID: "C06",
-		Explanation: "Decides the structural part of `replace writes the exact splice and each mode touches only its file`: (R1) the mode table of searchReplace - NEW opens only <file>+suffix for writing, OVERWRITE loads the original into memory before the truncating open of the file itself, NOTHING writes to memory; Run uses NOTHING and RunFiles forces NOTHING under -filenames; (R2) who may modify the file system: in the library only files.WriterFromFile opens for writing (called only by searchReplace) and RunFiles renames under processFilenames; nothing reachable from searchFind can write; (R3) the writer is opened with create|truncate|write; (R4) cursor pairing in the splice loop: the gap and the replacement are written at consecutive positions, the cursors advance by gap+len(replacement) and gap+len(match) on every path around the loop, the tail is copied, the writer is closed. " +
+		Explanation: "Decides the structural part of `replace writes the exact splice and each mode touches only its file`: (R1) the mode table of searchReplace - NEW opens only <file>+suffix for writing, OVERWRITE loads the original into memory before the truncating open of the file itself, NOTHING writes to memory; Run uses NOTHING and RunFiles forces NOTHING under -filenames; (R2) who may modify the file system: in the library only files.WriterFromFile opens for writing (called only by searchReplace) and RunFiles renames under processFilenames; nothing reachable from searchFind can write; (R3) the writer is opened with create|truncate|write; (R4) cursor pairing in the splice loop: the gap and the replacement are written at consecutive positions, the cursors advance by gap+len(replacement) and gap+len(match) on every path around the loop, the tail is copied, the writer is closed; (R5) every command searches a file through a reader opened for it in the same loop iteration, so a later command reads what an earlier one wrote. " +
 			"Does NOT decide the arithmetic itself (that gaps and values tile the input), short reads, or MemoryStream/OS write semantics.",
 		Assumptions: commonAssumptions,
 		Rules: []RuleFn{
 			{Name: "C06.R1", Run: func(c *Ctx) { ruleModeTable(c, "C06.R1") }},
 			{Name: "C06.R2", Run: func(c *Ctx) { ruleWhoWritesFiles(c, "C06.R2") }},
 			{Name: "C06.R4", Run: func(c *Ctx) { ruleSpliceLoop(c, "C06.R4") }},
+			{Name: "C06.R5", Run: func(c *Ctx) { ruleReaderPerSearch(c, "C06.R5") }},
 		},
 	})
 	register(&Property{
 		ID:          "C07",
-		Explanation: "The equivalence of buffered file reading with in-memory reading over all sizes and seek/read histories is a property of the window arithmetic in BufferedFile.Seek/Read and is NOT decided. Decided: (R1) no read in package files turns end of input into a panic (io.EOF excluded, or at least one byte requested and available); (R2) each Reader constructor sets size to the length of what its contents deliver; (R3) Reader.Read is called only after a Seek on the same reader (axiom A5) and BufferedFile's methods never use the OS file cursor, only positioned ReadAt.",
+		Explanation: "The equivalence of buffered file reading with in-memory reading over all sizes and seek/read histories is a property of the window arithmetic in BufferedFile.Seek/Read and is NOT decided. Decided: (R1) no read in package files turns end of input into a panic (io.EOF excluded, or at least one byte requested and available); (R2) each Reader constructor sets size to the length of what its contents deliver; (R3) Reader.Read is called only after a Seek on the same reader (axiom A5) and BufferedFile's methods never use the OS file cursor, only positioned ReadAt; (R4) every search gets a reader opened for it in the same loop iteration (no reader, with its buffered window and size, is kept across commands).",
 		Assumptions: commonAssumptions,
 		Rules: []RuleFn{
 			{Name: "C07.R1", Run: func(c *Ctx) { ruleEOFNotAnError(c, "C07.R1") }},
 			{Name: "C07.R2", Run: func(c *Ctx) { ruleSizeAgreement(c, "C07.R2") }},
 			{Name: "C07.R3", Run: func(c *Ctx) { ruleOneAccessPath(c, "C07.R3") }},
+			{Name: "C07.R4", Run: func(c *Ctx) { ruleReaderPerSearch(c, "C07.R4") }},
 		},
 	})
 	register(&Property{
 		ID: "C09",
-		Explanation: "Decides, for everything reachable from Run/RunFiles, an inventory of panic-capable constructs each discharged by a named rule: (R1) explicit panics - fall-out of complete type switches / exhaustive enum switches, the evaluator's SHOULDN'T GET HERE panics by R2, or a frozen trusted table (VM invariants, operating-system failures); (R2) every operand-type cell the checker accepts has a non-panicking evaluator leaf; (R3) the flow-insensitive checker binds variable types monotonically; (R4) integer division has a tested divisor; (R5) instruction fetch is dominated by a program-counter bound test; (R6) reads at end of input; (R7) type assertions; (R8) results of Peek/Pop/Index are tested before dereference; (R9) readers are closed by the function that opened them and do not outlive their iteration. " +
+		Explanation: "Decides, for everything reachable from Run/RunFiles, an inventory of panic-capable constructs each discharged by a named rule: (R1) explicit panics - fall-out of complete type switches / exhaustive enum switches, the evaluator's SHOULDN'T GET HERE panics by R2, or a frozen trusted table (VM invariants, operating-system failures); (R2) every operand-type cell the checker accepts has a non-panicking evaluator leaf; (R3) the flow-insensitive checker binds variable types monotonically; (R4) integer division has a tested divisor; (R5) instruction fetch is dominated by a program-counter bound test; (R6) reads at end of input; (R7) type assertions; (R8) results of Peek/Pop/Index are tested before dereference; (R9) readers are closed by the function that opened them and do not outlive their iteration; (R10) the VM-invariant panics of the trusted table rest on checkpoints being isolated snapshots: Copy gives every stack and map of a saved state its own storage (same rule as C02.R1); (R11) every Optional.GetValue is dominated by HasValue() on the same optional. " +
 			"Does NOT decide index safety that depends on VM invariants (branch lists non-empty, capture offsets inside the match, jump targets in range) nor process loops that never end.",
 		Assumptions: commonAssumptions,
 		Rules: []RuleFn{
@@ -198,7 +204,7 @@ func init() {
 					"msg:\"UHOH BAD INSTRUCTIONS I TRIED RESOLVING A VARIABLE THAT I WASN'T EXPECTING\"": "variable records are pushed and popped by bracketed StartVarDec/EndVarDec instructions (VM invariant)",
 					"msg:\"BAD CALL STACK :(\"":                               "call stack non-empty inside a subroutine (VM invariant)",
 					"msg:\"WOW THAT IS NOT GOOD :(\"":                         "the byte at the scan offset exists because the scan loop leaves when the offset reaches reader.Size() (value-level)",
-					"msg:\"Attempting to read value from empty optional :(\"": "callers test HasValue() first (C17.R2)",
+					"msg:\"Attempting to read value from empty optional :(\"": "every call of GetValue is dominated by HasValue() on the same optional (C09.R11)",
 				}, 12, special)
 			}},
 			{Name: "C09.R2", Run: func(c *Ctx) { ruleCheckerSubsetEvaluator(c, "C09.R2", nil) }},
@@ -218,6 +224,8 @@ func init() {
 				})
 			}},
 			{Name: "C09.R9", Run: func(c *Ctx) { ruleReaderLifetime(c, "C09.R9") }},
+			{Name: "C09.R10", Run: func(c *Ctx) { ruleSnapshotIsolation(c, "C09.R10") }},
+			{Name: "C09.R11", Run: func(c *Ctx) { ruleOptionalGuard(c, "C09.R11") }},
 		},
 	})
 	register(&Property{
@@ -226,12 +234,14 @@ func init() {
 		Assumptions: commonAssumptions,
 		Rules: []RuleFn{
 			{Name: "C20.R1", Run: func(c *Ctx) { ruleFileListGuards(c, "C20.R1") }},
+			{Name: "C20.R2", Run: func(c *Ctx) { ruleCutsetNotPrefix(c, "C20.R2", []string{"files", "engine", "main"}) }},
+			{Name: "C20.R3", Run: func(c *Ctx) { ruleAffixOverlap(c, "C20.R3", []string{"files", "algo"}) }},
 		},
 	})
 	register(&Property{
 		ID: "C10",
-		Explanation: "Termination itself is NOT decided. Decided are the mechanisms that make it true: (R1) in matchStartLoop the zero-width check dominates every start of a further iteration, and on a zero-width iteration the only effect is BACKTRACK and return; the recorded start is only ever len(currentMatch); (R2) matchEndNotIn advances only when the offset changed across CONSUME; (R3) every instruction handler and every MATCH* primitive moves the state (NEXT/JUMP/RETURN/BACKTRACK/FAIL) on every returning path (must-analysis over the CFG, greatest fixpoint over the primitives); (R4) the outer scan advances (scan discipline); (R5) loop identity compares loop id and call depth. " +
-			"Does NOT decide weakened-but-present guards, the inner loops of MATCHWHOLELINE/WORD, nor recursion that consumes nothing (excluded by the property).",
+		Explanation: "Termination itself is NOT decided. Decided are the mechanisms that make it true: (R1) in matchStartLoop the zero-width check dominates every start of a further iteration, and on a zero-width iteration the only effect is BACKTRACK and return; the recorded start is only ever len(currentMatch); (R2) matchEndNotIn advances only when the offset changed across CONSUME; (R3) every instruction handler and every MATCH* primitive moves the state (NEXT/JUMP/RETURN/BACKTRACK/FAIL) on every returning path (must-analysis over the CFG, greatest fixpoint over the primitives); (R4) the outer scan advances (scan discipline); (R5) loop identity compares loop id and call depth; (R6) every loop inside an instruction handler that calls CONSUME has an exit that tests the offset against reader.Size() (directly or in every predicate the exit can call); R1 also requires every increment of the iteration counter to re-record the iteration start on all paths. " +
+			"Does NOT decide weakened-but-present guards, nor recursion that consumes nothing (excluded by the property).",
 		Assumptions: commonAssumptions,
 		Rules: []RuleFn{
 			{Name: "C10.R1", Run: func(c *Ctx) { ruleZeroWidthGuard(c, "C10.R1") }},
@@ -239,6 +249,7 @@ func init() {
 			{Name: "C10.R3", Run: func(c *Ctx) { ruleHandlersMove(c, "C10.R3") }},
 			{Name: "C10.R4", Run: func(c *Ctx) { ruleScanDiscipline(c, "C10.R4") }},
 			{Name: "C10.R5", Run: func(c *Ctx) { ruleLoopIdentity(c, "C10.R5") }},
+			{Name: "C10.R6", Run: func(c *Ctx) { ruleConsumingLoopsStopAtEOF(c, "C10.R6") }},
 		},
 	})
 	register(&Property{
@@ -257,13 +268,15 @@ func init() {
 	register(&Property{
 		ID: "C12",
 		Explanation: "Decides that the static checker accepts exactly the documented operand-type combinations: (R1) the full decision table of checkBinaryExpr/checkUnaryExpr over {string,number,bool,error}^2 x 13 operators (208+12 cells, extracted by partial evaluation) equals the documented table in both directions, including error propagation from either operand; " +
-			"(R2) every accepted cell has a non-panicking evaluator leaf of the promised result type; (R3) statement rules: if needs bool, return by context, break/continue only in loop, loop restores the inLoop flag; (R4) both generators run the checker on every statement before succeeding; (R5) statement/expression dispatch completeness. " +
+			"(R2) every accepted cell has a non-panicking evaluator leaf of the promised result type; (R3) statement rules: if needs bool, return by context, break/continue only in loop, loop restores the inLoop flag; (R4) both generators run the checker on every statement before succeeding; (R5) statement/expression dispatch completeness; (R6) error discipline of the checker: the verdict of a check call is compared with PTERROR or returned before it is handed to the next check call; (R7) every body is checked against a type environment created for that body. " +
 			"Does NOT decide flow-sensitive typing (excluded by the property).",
 		Assumptions: append([]string{"the documentation table is the specification"}, commonAssumptions...),
 		Rules: []RuleFn{
 			{Name: "C12.R1", Run: func(c *Ctx) { t := ruleCheckerTable(c, "C12.R1"); ruleCheckerSubsetEvaluator(c, "C12.R2", t) }},
 			{Name: "C12.R3", Run: func(c *Ctx) { ruleStatementRules(c, "C12.R3") }},
 			{Name: "C12.R4", Run: func(c *Ctx) { ruleCheckerAlwaysRun(c, "C12.R4") }},
+			{Name: "C12.R6", Run: func(c *Ctx) { ruleCheckErrorsPropagate(c, "C12.R6") }},
+			{Name: "C12.R7", Run: func(c *Ctx) { ruleCheckerEnvFresh(c, "C12.R7") }},
 			{Name: "C12.R5", Run: func(c *Ctx) {
 				ruleTypeSwitchComplete(c, "C12.R5", []string{"bytecode", "engine"}, func(n *types.Named) bool {
 					return n.Obj().Name() == "AstProcessStatement" || n.Obj().Name() == "AstProcessExpression"
@@ -297,6 +310,7 @@ func init() {
 			}},
 			{Name: "C15.R2", Run: func(c *Ctx) { ruleIgnorableSiblings(c, "C15.R2") }},
 			{Name: "C15.R3", Run: func(c *Ctx) { ruleKeywordCase(c, "C15.R3") }},
+			{Name: "C15.R4", Run: func(c *Ctx) { ruleLexerTokenMemory(c, "C15.R4") }},
 		},
 	})
 	register(&Property{
@@ -309,6 +323,7 @@ func init() {
 			{Name: "C16.R2", Run: func(c *Ctx) { ruleEscapeTable(c, "C16.R2") }},
 			{Name: "C16.R3", Run: func(c *Ctx) { ruleQuoteSiblings(c, "C16.R3") }},
 			{Name: "C16.R5", Run: func(c *Ctx) { ruleReadVerbatim(c, "C16.R5") }},
+			{Name: "C16.R6", Run: func(c *Ctx) { ruleEscapeStateOneChar(c, "C16.R6") }},
 		},
 	})
 	register(&Property{
@@ -321,6 +336,7 @@ func init() {
 			{Name: "C17.R2", Run: func(c *Ctx) { ruleJSONShape(c, "C17.R2") }},
 			{Name: "C17.R3", Run: func(c *Ctx) { ruleJSONMarshalSafe(c, "C17.R3") }},
 			{Name: "C17.R4", Run: func(c *Ctx) { ruleJSONRenderings(c, "C17.R4") }},
+			{Name: "C17.R5", Run: func(c *Ctx) { ruleJSONTextUntouched(c, "C17.R5") }},
 		},
 	})
 	register(&Property{
@@ -334,6 +350,7 @@ func init() {
 			{Name: "C18.R3", Run: func(c *Ctx) { ruleCLIExits(c, "C18.R3") }},
 			{Name: "C18.R4", Run: func(c *Ctx) { ruleCLIModeTable(c, "C18.R4") }},
 			{Name: "C18.R5", Run: func(c *Ctx) { ruleCLIFlags(c, "C18.R5") }},
+			{Name: "C18.R6", Run: func(c *Ctx) { ruleCutsetNotPrefix(c, "C18.R6", []string{"main", "files", "engine"}) }},
 		},
 	})
 	register(&Property{
